@@ -634,11 +634,7 @@ func (r *reader) read(src []byte) {
 			} else {
 				obj = String(src[r.tokenStart:r.pos])
 			}
-			if 0 < len(r.stack) {
-				r.stack = append(r.stack, obj)
-			} else {
-				r.code = append(r.code, obj)
-			}
+			r.push(obj)
 			r.mode = valueMode
 		case pipeDone:
 			var obj Object
@@ -647,11 +643,7 @@ func (r *reader) read(src []byte) {
 			} else {
 				obj = Symbol(src[r.tokenStart:r.pos])
 			}
-			if 0 < len(r.stack) {
-				r.stack = append(r.stack, obj)
-			} else {
-				r.code = append(r.code, obj)
-			}
+			r.push(obj)
 			r.mode = valueMode
 
 		case escByte:
@@ -776,11 +768,7 @@ func (r *reader) read(src []byte) {
 			r.mode = bitVectorMode
 		case bitVectorDone:
 			token := r.makeToken(src)
-			if 0 < len(r.stack) {
-				r.stack = append(r.stack, ReadBitVector(token))
-			} else {
-				r.code = append(r.code, ReadBitVector(token))
-			}
+			r.push(ReadBitVector(token))
 			r.mode = valueMode
 			goto Retry
 
@@ -835,11 +823,7 @@ func (r *reader) read(src []byte) {
 			r.pushInteger(src)
 		case bitVectorMode:
 			token := r.makeToken(src)
-			if 0 < len(r.stack) {
-				r.stack = append(r.stack, ReadBitVector(token))
-			} else {
-				r.code = append(r.code, ReadBitVector(token))
-			}
+			r.push(ReadBitVector(token))
 		}
 		if 0 < len(r.stack) {
 			r.partial("list not terminated")
@@ -899,149 +883,64 @@ func (r *reader) closeList() {
 				list[len(list)-2] = Tail{Value: list[len(list)-1]}
 			}
 			list = list[:len(list)-1]
-			obj = list
-		} else {
-			obj = list
 		}
-		if 0 < start {
-			switch r.stack[start-1] {
-			case quoteMarker:
-				if newQuote == nil {
-					newQuote = CLPkg.GetFunc("quote").Create
-				}
-				obj = newQuote(List{obj})
-				start--
-				r.stack[start] = nil
-				r.stack = r.stack[:start+1]
-			case sharpQuoteMarker:
-				if newSharpQuote == nil {
-					newSharpQuote = CLPkg.GetFunc("function").Create
-				}
-				obj = newSharpQuote(List{obj})
-				start--
-				r.stack[start] = nil
-				r.stack = r.stack[:start+1]
-			case backquoteMarker:
-				if newBackquote == nil {
-					newBackquote = CLPkg.GetFunc("backquote").Create
-				}
-				obj = newBackquote(List{obj})
-				start--
-				r.stack[start] = nil
-				r.stack = r.stack[:start+1]
-			case commaMarker:
-				if newComma == nil {
-					newComma = CLPkg.GetFunc("comma").Create
-				}
-				obj = newComma(List{obj})
-				start--
-				r.stack[start] = nil
-				r.stack = r.stack[:start+1]
-			case commaAtMarker:
-				if newCommaAt == nil {
-					newCommaAt = CLPkg.GetFunc("comma-at").Create
-				}
-				obj = newCommaAt(List{obj})
-				start--
-				r.stack[start] = nil
-				r.stack = r.stack[:start+1]
-			}
+		obj = list
+	}
+	r.stack[start] = nil
+	r.stack = r.stack[:start]
+	r.starts = r.starts[:len(r.starts)-1]
+	r.push(obj)
+}
+
+// push a completed object, onto the stack when inside a list and onto the
+// code otherwise. The reader macros (' ` , ,@ #') waiting on top of the stack
+// are applied to the object first.
+func (r *reader) push(obj Object) {
+	for 0 < len(r.stack) {
+		var (
+			create *func(args List) Object
+			name   string
+		)
+		switch r.stack[len(r.stack)-1] {
+		case quoteMarker:
+			create, name = &newQuote, "quote"
+		case sharpQuoteMarker:
+			create, name = &newSharpQuote, "function"
+		case backquoteMarker:
+			create, name = &newBackquote, "backquote"
+		case commaMarker:
+			create, name = &newComma, "comma"
+		case commaAtMarker:
+			create, name = &newCommaAt, "comma-at"
+		default:
+			r.stack = append(r.stack, obj)
+			return
 		}
+		if *create == nil {
+			*create = CLPkg.GetFunc(name).Create
+		}
+		obj = (*create)(List{obj})
+		r.stack[len(r.stack)-1] = nil
+		r.stack = r.stack[:len(r.stack)-1]
 	}
-	if 0 < start {
-		r.stack[start] = obj
-		r.starts = r.starts[:len(r.starts)-1]
-	} else {
-		r.stack = r.stack[:0]
-		r.starts = r.starts[:0]
-		r.code = append(r.code, obj)
-	}
+	r.code = append(r.code, obj)
 }
 
 // Converts tokens to the correct type and then pushes that value onto the
 // stack.
 func (r *reader) pushToken(src []byte) {
-	var obj Object
 	token := r.makeToken(src)
 	size := len(token)
-	if size == 1 && (token[0] == 't' || token[0] == 'T') {
-		obj = True
-		goto Push
-	}
-	if size == 3 && bytes.EqualFold([]byte("nil"), token) {
-		obj = nil
-		goto Push
-	}
-	if 0 < len(r.stack) {
-		switch r.stack[len(r.stack)-1] {
-		case quoteMarker:
-			if newQuote == nil {
-				newQuote = CLPkg.GetFunc("quote").Create
-			}
-			if len(r.stack) == 1 {
-				r.code = append(r.code, newQuote(List{r.resolveToken(token)}))
-				r.stack[len(r.stack)-1] = nil
-				r.stack = r.stack[:0]
-			} else {
-				r.stack[len(r.stack)-1] = newQuote(List{r.resolveToken(token)})
-			}
-			return
-		case sharpQuoteMarker:
-			if newSharpQuote == nil {
-				newSharpQuote = CLPkg.GetFunc("function").Create
-			}
-			if len(r.stack) == 1 {
-				r.code = append(r.code, newSharpQuote(List{Symbol(token)}))
-				r.stack[len(r.stack)-1] = nil
-				r.stack = r.stack[:0]
-			} else {
-				r.stack[len(r.stack)-1] = newSharpQuote(List{Symbol(token)})
-			}
-			return
-		case backquoteMarker:
-			if newBackquote == nil {
-				newBackquote = CLPkg.GetFunc("backquote").Create
-			}
-			if len(r.stack) == 1 {
-				r.code = append(r.code, newBackquote(List{r.resolveToken(token)}))
-				r.stack[len(r.stack)-1] = nil
-				r.stack = r.stack[:0]
-			} else {
-				r.stack[len(r.stack)-1] = newBackquote(List{r.resolveToken(token)})
-			}
-			return
-		case commaMarker:
-			if newComma == nil {
-				newComma = CLPkg.GetFunc("comma").Create
-			}
-			if len(r.stack) == 1 {
-				r.code = append(r.code, newComma(List{r.resolveToken(token)}))
-				r.stack[len(r.stack)-1] = nil
-				r.stack = r.stack[:0]
-			} else {
-				r.stack[len(r.stack)-1] = newComma(List{r.resolveToken(token)})
-			}
-			return
-		case commaAtMarker:
-			if newCommaAt == nil {
-				newCommaAt = CLPkg.GetFunc("comma-at").Create
-			}
-			if len(r.stack) == 1 {
-				r.code = append(r.code, newCommaAt(List{r.resolveToken(token)}))
-				r.stack[len(r.stack)-1] = nil
-				r.stack = r.stack[:0]
-			} else {
-				r.stack[len(r.stack)-1] = newCommaAt(List{r.resolveToken(token)})
-			}
-			return
-		}
-	}
-	obj = r.resolveToken(token)
-Push:
-	if 0 < len(r.stack) {
-		r.stack = append(r.stack, obj)
-	} else {
-		r.code = append(r.code, obj)
+	switch {
+	case size == 1 && (token[0] == 't' || token[0] == 'T'):
+		r.push(True)
+	case size == 3 && bytes.EqualFold([]byte("nil"), token):
+		r.push(nil)
+	case 0 < len(r.stack) && r.stack[len(r.stack)-1] == sharpQuoteMarker:
+		// A function name is never a number.
+		r.push(Symbol(token))
+	default:
+		r.push(r.resolveToken(token))
 	}
 }
 
@@ -1185,11 +1084,7 @@ func (r *reader) pushChar(src []byte) {
 	if c == 0 {
 		r.raise(`'#\%s' is not a valid character`, token)
 	}
-	if 0 < len(r.stack) {
-		r.stack = append(r.stack, c)
-	} else {
-		r.code = append(r.code, c)
-	}
+	r.push(c)
 }
 
 func (r *reader) pushInteger(src []byte) {
@@ -1208,11 +1103,7 @@ func (r *reader) pushInteger(src []byte) {
 			r.raise("%s is not a valid base 2 integer", token)
 		}
 	}
-	if 0 < len(r.stack) {
-		r.stack = append(r.stack, obj)
-	} else {
-		r.code = append(r.code, obj)
-	}
+	r.push(obj)
 }
 
 // String returns a string representation of the instance.
